@@ -34,6 +34,10 @@ fn dispatch(op: &str, args: &[Sexp]) -> String {
         "c20.abs2gds" => crate::props::c20::op_abs2gds(args),
         "c20.abs2lef" => crate::props::c20::op_abs2lef(args),
         "c20.lefrt" => crate::props::c20::op_lefrt(args),
+        "serde.gds" => crate::props::c18::op_gds(args),
+        "serde.gdsbytes" => crate::props::c18::op_gdsbytes(args),
+        "serde.lef" => crate::props::c18::op_lef(args),
+        "serde.lefspecial" => crate::props::c18::op_lefspecial(args),
         "tf.apply" => crate::props::c12::op_apply(args),
         "tf.general" => crate::props::c12::op_general(args),
         "raw.flatten" => crate::props::c12::op_flatten(args),
